@@ -28,6 +28,7 @@ def run(ctx):
             if r < 0.2 or live == 0: toks.append('G'); live += 1
             elif r < 0.55: toks.append('W%d,%s' % (rng.randrange(live + 1), bytes(rng.getrandbits(8) for _ in range(rng.randrange(1, 9))).hex()))
             elif r < 0.7: toks.append('F%d' % rng.randrange(live + 1))
+            elif r < 0.74: toks.append('I'); live = 0
             else: toks.append('R%d' % rng.choice([0, 1, 2, 5, 100]))
         hists.append(' '.join(toks))
     a, af = run_lines(odrv, hists); b, bf = run_lines(orc, ['outqhist ' + h for h in hists])
